@@ -202,6 +202,8 @@ def session(arg):
                     n0 = len(display)
                     os.write(ctl, b'S ' + st[1].encode() + b'\n')
                     wait(lambda: len(display) >= n0 + len(apply_f(case.get('fout'), b)), 2.0)
+                    if not apply_f(case.get('fout'), b):
+                        time.sleep(0.08)          # nothing to wait for on the display: let the loop read this chunk on its own
                 elif st[0] == 'burst_exit':
                     exit_sent.set()
                     os.write(ctl, b'B %d\n' % st[1])
@@ -210,7 +212,12 @@ def session(arg):
                     os.write(ctl, b'Q\n')
                 elif st[0] == 'sleep':
                     time.sleep(st[1])
-        th_u = threading.Thread(target=user, daemon=True)
+        def user_safe():
+            try:
+                user()
+            except OSError:
+                pass                       # the session is over and its descriptors are closed
+        th_u = threading.Thread(target=user_safe, daemon=True)
         orig_setraw = tty.setraw
 
         def setraw(fd, *a, **k):
@@ -336,9 +343,9 @@ def oracle(case, out):
             ended = True            # the session ends here: later steps are not part of it
     burst = 0 if ended else sum(st[1] for st in case['steps'] if st[0] == 'burst_exit')
     tail = (b'0123456789abcdef' * (burst // 16 + 1))[:burst] if burst else b''
-    want_out = pend + apply_f(fout, said) if not fout or fout == 'up' else None
+    want_out = pend + apply_f(fout, said) if (not fout or fout == 'up' or fout.startswith('drop')) else None
     if want_out is not None:
-        want_all = want_out + (apply_f(fout, tail) if fout in (None, 'up') else b'')
+        want_all = want_out + apply_f(fout, tail)
         if not display.startswith(pend):
             return ('interact/pending-not-flushed', 'pending text %r, the display starts with %r' % (pend[:40], display[:40]))
         if ended:
@@ -429,6 +436,8 @@ CORPUS = [
     # filters
     dict(steps=[T(b'abq' + ESC), S_(b'shout')], fin='up', fout='up', esc=chr(29)),
     dict(steps=[T(b'ab\x1dcd', 5), T(b'Qz')], fin='drop29', esc='Q'),
+    # an output filter that empties a whole read (a lone BEL) must not end the session
+    dict(steps=[S_(b'one'), S_(b'\x07'), S_(b'two'), T(b'k', 1), S_(b'\x07\x07'), S_(b'three'), T(ESC)], fout='drop7', esc=chr(29)),
     # bursts larger than one read
     dict(steps=[T(bytes(range(32, 127)) * 30, 95 * 30), T(ESC)], esc=chr(29)),
     dict(steps=[S_(bytes(range(256)) * 12), T(ESC)], esc=chr(29)),
@@ -474,7 +483,7 @@ def rand_case(rng):
     for st in steps:
         if st[0] == 'type':
             total += len(hx(st[1]))
-    case = dict(steps=steps, esc=esc, fin=rng.choice([None, None, None, 'up', 'drop97']), fout=rng.choice([None, None, None, 'up']),
+    case = dict(steps=steps, esc=esc, fin=rng.choice([None, None, None, 'up', 'drop97']), fout=rng.choice([None, None, None, 'up', 'drop7']),
                 pending=rng.choice(['', '', 'pending text here', 'ab']), W=rng.choice([None, None, 2]),
                 poll=rng.random() < 0.3, encoding=rng.choice([None, None, 'latin-1']), logs=rng.random() < 0.4)
     if case['fin'] == 'up' and esc == 'q':
